@@ -46,15 +46,17 @@ def run(ctx):
                 continue
             # the callable handed to filter_map: a closure or a function item (e.g. a private helper passed by path)
             captured = []
+            captured_src = []
 
-            def cap_hook(it, fn, t, args, captured=captured):
+            def cap_hook(it, fn, t, args, captured=captured, captured_src=captured_src):
                 c = t['callee']
                 if c['name'] == 'filter_map' and not c.get('local') and len(args) == 2:
                     captured.append(args[1])
+                    captured_src.append(args[0])
                     return Stop(None)
-                if c.get('local'):
+                if c.get('local') and c['name'] in ('iter', 'iter_operators_mut', 'new') and 'tree::iter' in c['def']:
                     return ('app', short(c['def']), tuple(args))
-                return None
+                return None   # private helpers between the method and its filter_map are followed
             try:
                 Interp(prog, hook=cap_hook).paths(f, [SYM('self')])
             except Budget:
@@ -105,10 +107,13 @@ def run(ctx):
                 ctx.check(got == want, 'R14.1', name, 'variant-set', '%s selects exactly %s (found %s)' % (name, sorted(want), sorted(got)), span=c.span)
                 ctx.sample(dict(rule='R14.1', method=name, selects=sorted(got)))
             # R14.2 traversal + adaptor
-            local_calls = [short(t['callee']['def']) for _, t in f.calls() if t['callee'].get('local')]
-            std_calls = [t['callee']['name'] for _, t in f.calls() if not t['callee'].get('local')]
             want_trav = 'tree::iter::<impl tree::Node>::iter_operators_mut' if suffix else 'tree::iter::<impl tree::Node>::iter'
-            ctx.check(local_calls == [want_trav], 'R14.2', name + ':traversal', 'traversal', '%s traverses with %s (found %s)' % (name, want_trav, local_calls), span=f.span)
+            src = captured_src[0] if captured_src else None
+            trav_ok = src is not None and src[0] == 'app' and src[1] == want_trav and src[2] == (SYM('self'),)
+            ctx.check(trav_ok, 'R14.2', name + ':traversal', 'traversal', '%s filters the traversal %s(self) directly (found %s)' % (name, want_trav, fmt(src)[:120] if src else None), span=f.span)
+            # nothing is stacked on top of the filter: the method (and a private helper it may go through) makes no other non-local call
+            chain = [f] + [g for g in prog.fns if g.kind != 'Closure' and any(t_['callee'].get('local') and short(t_['callee']['def']) == short(g.path) for _b, t_ in f.calls()) and 'tree::iter' not in g.path]
+            std_calls = sorted({t_['callee']['name'] for g in chain for _b, t_ in g.calls() if not t_['callee'].get('local')})
             ctx.check(std_calls == ['filter_map'], 'R14.2', name + ':adaptor', 'adaptor', 'the only iterator adaptor is filter_map (found %s)' % std_calls, span=f.span)
     ctx.floor('R14.1', 'iterator_filters', n, 10)
     for base in WANT:
@@ -240,14 +245,24 @@ def r14_4(ctx, prog):
             for st in blk['stmts']:
                 if st['k'] == 'assign' and st['rv']['k'] == 'aggregate' and st['rv'].get('agg') == 'adt' and path_endswith(st['rv']['adt'], 'error::EvalexprError') and st['rv']['vname'] in ('VariableIdentifierNotFound', 'FunctionIdentifierNotFound'):
                     sites.append((f, blk['id'], st))
-    ctx.floor('R14.4', 'not_found_construction_sites', len(sites), 5)
+    ctx.floor('R14.4', 'not_found_construction_sites', len(sites), 3)
     op = prog.adt(OPERATOR)
     # a crate-private helper that builds the error from one of its own parameters is not itself a reporting site: its call sites are
     roots = ('operator::Operator::eval', 'operator::Operator::eval_mut')
 
     def is_reporter(f):
         return short(f.path) in roots or (f.name == 'call_function' and path_endswith(f.j.get('impl_trait') or '', 'context::Context')) or f.j.get('derived')
-    work = [(f, b, st['rv']['vname'], st.get('span'), 0) for f, b, st in sites]
+    def owner(f):
+        """a closure's construction site belongs to the function it is written in"""
+        n_ = 0
+        while f.kind == 'Closure' and n_ < 4:
+            par = prog.by_path.get(f.j.get('parent'))
+            if par is None:
+                break
+            f = par
+            n_ += 1
+        return f
+    work = [(owner(f), b if owner(f) is f else 0, st['rv']['vname'], st.get('span'), 0) for f, b, st in sites]
     final = []
     seen_helpers = set()
     while work:
